@@ -80,6 +80,9 @@ def _worker(arg):
             continue
         except Unsupported as e:
             res = ('unsupported', str(e))
+        except Exception as e:      # engine bug: report it as inconclusive with the traceback, never as success
+            import traceback
+            res = ('unsupported', 'engine error %s: %s\n%s' % (type(e).__name__, e, traceback.format_exc()[-1500:]))
         work.extend(it.new_branches)
         npaths += 1
         steps += it.steps
